@@ -12,7 +12,7 @@ from props import c05
 
 PID = "C18"
 
-def alias_write(dims, V, rng, op=None, dst=None, src=None, na=False, keep=False, rk=None, perfect=False):
+def alias_write(dims, V, rng, op=None, dst=None, src=None, na=False, keep=False, rk=None, perfect=False, ops=None):
     rank1 = len(dims) == 1
     if dst is None:
         dst = []
@@ -30,12 +30,34 @@ def alias_write(dims, V, rng, op=None, dst=None, src=None, na=False, keep=False,
         return [G.range_with_ext(n, e, rng, rank1) for n, e in zip(dims, exts)]
     src = src or other()
     src2 = other() if rk == "b" else None
-    op = op or rng.choice(G.OPS)
+    op = op or rng.choice(ops or G.OPS)
     if rk == "s":
-        return G.write_txt(op + ("n" if na else "") + ("k" if keep else ""), "s", rng.choice([2, 3, -1]), dst)
+        return G.write_txt(op + ("n" if na else "") + ("k" if keep else ""), "s", rng.choice([2, 4, -2]) if op == "div" else rng.choice([2, 3, -1]), dst)
     return G.write_txt(op + ("n" if na else "") + ("k" if keep else ""), rk, rng.choice([2, 3, -1, 5]), dst, src, src2)
 
+def cap_mul(script, keep=1):
+    """the symbolic carrier squares its polynomials on every aliased `mul`: keep at most `keep` of them per script
+    (the others become `sub`), otherwise the harness itself needs gigabytes"""
+    ws = script.split("/"); seen = 0
+    for i, w in enumerate(ws):
+        f = w.split(".")
+        # an UNGUARDED `mul` by A(r2)*c + A(r3) over overlapping ranges chains through the elements in traversal
+        # order and doubles the number of polynomial terms per element (2^extent): not run on the symbolic carrier
+        if f[0].startswith("mul") and f[1] == "b" and "n" not in f[0][3:]:
+            f[0] = "sub" + f[0][3:]
+            ws[i] = ".".join(f)
+            continue
+        if f[0].startswith("mul") and f[1] in "ab":
+            seen += 1
+            if seen > keep:
+                f[0] = "sub" + f[0][3:]
+                ws[i] = ".".join(f)
+    return "/".join(ws)
+
 def scripts(dims, V, rng, quick):
+    return [cap_mul(s) for s in scripts0(dims, V, rng, quick)]
+
+def scripts0(dims, V, rng, quick):
     out = []
     n = dims[0]
     if len(dims) == 1:
@@ -46,7 +68,7 @@ def scripts(dims, V, rng, quick):
             for s in tri:
                 if G.ext_of(s, n) == e:
                     pairs.append((d, s))
-        cap = 360 if quick else 6000
+        cap = 360 if quick else 3000
         if len(pairs) > cap:
             pairs = rng.sample(pairs, cap)
         for i, (d, s) in enumerate(pairs):
@@ -70,7 +92,7 @@ def scripts(dims, V, rng, quick):
     return out
 
 def shapes(V, which):
-    return {"a1": (max(9, 2 * V + 1),), "a2": (4, V + 3), "a3": (2, 3, 2 * V)}[which]
+    return {"a1": (max(9, 2 * V + 1),), "a2": (4, 2 * V + 1), "a3": (2, 3, 2 * V)}[which]
 
 def sym_groups(tier, seed):
     rng = random.Random(seed * 104729 + 11)
@@ -101,13 +123,81 @@ def sym_groups(tier, seed):
                 ws = [alias_write(dims, V, r2, dst=list(fseqs), na=r2.random() < 0.6)]
                 for _ in range(r2.randint(0, 2)):
                     ws.append(alias_write(dims, V, r2, dst=list(fseqs), na=r2.random() < 0.2, keep=True, rk=r2.choice("aasb")))
-                sc.append("/".join(ws))
+                sc.append(cap_mul("/".join(ws)))
             rd = tuple(G.ext_of(t, n) for t, n in zip(fseqs, dims))
             fs = "(" + ", ".join("fseq<%d,%d,%d>" % t for t in fseqs) + ")"
             calls = ['VWF(Sym%d, %s, %s, %s, "%s");' % (sz, c05.tup(rd), c05.tup(dims), fs, s) for s in sc]
             groups.append({"key": "%s/sz%d/vea%d/%s" % (isa, sz, vea, name), "header": "view_write_sym.h", "isa": isa, "opt": "-O0",
                            "defs": ["-DFASTOR_USE_VECTORISED_EXPR_ASSIGN"] if vea else [], "calls": calls})
-    return groups
+    # the FASTOR_NO_ALIAS=1 cell (documented: "no aliasing is assumed", the guard is compiled out): the flag is stored
+    # and never tested, so every aliased statement takes the in-order path; recorded separately (route …-nal)
+    for (isa, sz) in ([("avx2", 4)] if quick else [("sse2", 8), ("avx2", 4), ("avx512", 4)]):
+        V = G.vwidth(isa, sz)
+        for which in (["a1"] if quick else ["a1", "a2", "a3"]):
+            dims = shapes(V, which)
+            r2 = random.Random(rng.random())
+            sc = [alias_write(dims, V, r2, na=True) for _ in range(60 if quick else 400)]
+            sc += [alias_write(dims, V, r2, na=True, perfect=True) for _ in range(20 if quick else 100)]
+            sc = [x.replace("muln.b.", "subn.b.") for x in sc]       # the flag has no effect in this cell: same hazard
+            rd = tuple(1 for _ in dims)
+            calls = ['VW(Sym%d, %s, %s, "%s");' % (sz, c05.tup(rd), c05.tup(dims), s) for s in sc]
+            groups.append({"key": "%s/sz%d/vea0/nal-%s" % (isa, sz, which), "header": "view_write_sym.h", "isa": isa, "opt": "-O0",
+                           "defs": ["-DFASTOR_NO_ALIAS=1"], "calls": calls})
+    return c05.only_filter(groups)
+
+def real_groups(tier, seed):
+    """overlap patterns on the real element types, all five operators, guarded or exactly coinciding cases judged"""
+    rng = random.Random(seed * 7727 + 3)
+    quick = tier == "quick"
+    isas = core.QUICK_ISAS if quick else core.ALL_ISAS
+    groups = []
+    ci = 0
+    G.REVERSED_P[0] = 0.1
+    try:
+        for isa in isas:
+            for (t, sz) in c05.REAL_TYPES:
+                ci += 1
+                V = G.vwidth(isa, sz)
+                for wi, which in enumerate([("a1", "a2", "a3")[(ci + seed) % 3]] if quick else ["a1", "a2", "a3"]):
+                    for vea in ([(ci + seed) % 2] if quick else [(ci + wi) % 2]):
+                        dims = shapes(V, which)
+                        r2 = random.Random(rng.random())
+                        sc = []
+                        for k in range(120 if quick else 1200):
+                            na = r2.random() < 0.7
+                            ws = [alias_write(dims, V, r2, na=na, perfect=(not na and r2.random() < 0.6), ops=G.OPS5)]
+                            if r2.random() < 0.3:
+                                dstr = [tuple(int(x) for x in ax.split("_")) for ax in ws[0].split(".")[3].split(",")]
+                                for _ in range(r2.randint(1, 2)):
+                                    ws.append(alias_write(dims, V, r2, dst=dstr, na=r2.random() < 0.5, keep=True, rk=r2.choice("aasb"), ops=G.OPS5))
+                            sc.append("/".join(ws))
+                        rd = tuple(1 for _ in dims)
+                        calls = ['VWR(%s, %s, %s, %du, "%s");' % (t, c05.tup(rd), c05.tup(dims), seed * 1000 + k, s) for k, s in enumerate(sc)]
+                        groups.append({"key": "real/%s/%s/vea%d/%s" % (isa, t, vea, which), "header": "view_write_real.h", "isa": isa, "opt": "-O2",
+                                       "defs": ["-ffp-contract=off"] + (["-DFASTOR_USE_VECTORISED_EXPR_ASSIGN"] if vea else []), "pre": "", "calls": calls})
+                # a fixed view with the flag on real types: every other cell
+                if not quick or (ci + seed) % 2 == 0:
+                    fam = [("g1", (2 * V + 3,), [(1, V + 2, 1)], 0), ("g2", (4, V + 3), [(1, 4, 2), (1, V + 2, 1)], 1),
+                           ("g1s", (2 * V + 5,), [(0, -1, 2)], 1), ("g2s", (3, 2 * V + 1), [(0, -1, 1), (0, -1, 2)], 0),
+                           ("g3", (2, 3, 2 * V), [(0, 1, 1), (1, 3, 1), (0, V, 1)], 0), ("g3s", (2, 3, V + 2), [(0, -1, 1), (0, -1, 2), (1, -1, 1)], 0)]
+                    for (name, dims, fseqs, vea) in ([fam[(ci // 2 + seed) % 6]] if quick else [fam[ci % 6], fam[(ci + 2) % 6], fam[(ci + 4) % 6]]):
+                        r2 = random.Random(rng.random())
+                        sc = []
+                        for k in range(40 if quick else 300):
+                            ws = [alias_write(dims, V, r2, dst=list(fseqs), na=r2.random() < 0.8, ops=G.OPS5)]
+                            if r2.random() < 0.3:
+                                ws.append(alias_write(dims, V, r2, dst=list(fseqs), na=r2.random() < 0.5, keep=True, rk=r2.choice("aasb"), ops=G.OPS5))
+                            sc.append("/".join(ws))
+                        G.REVERSED_P[0] = 0.0
+                        rd = tuple(G.ext_of(x, n) for x, n in zip(fseqs, dims))
+                        G.REVERSED_P[0] = 0.1
+                        fs = "(" + ", ".join("fseq<%d,%d,%d>" % x for x in fseqs) + ")"
+                        calls = ['VWRF(%s, %s, %s, %s, %du, "%s");' % (t, c05.tup(rd), c05.tup(dims), fs, seed * 1000 + k, s) for k, s in enumerate(sc)]
+                        groups.append({"key": "real/%s/%s/vea%d/%s" % (isa, t, vea, name), "header": "view_write_real.h", "isa": isa, "opt": "-O2",
+                                       "defs": ["-ffp-contract=off"] + (["-DFASTOR_USE_VECTORISED_EXPR_ASSIGN"] if vea else []), "pre": "", "calls": calls})
+    finally:
+        G.REVERSED_P[0] = 0.0
+    return c05.only_filter(groups)
 
 def nontrivial(inp, mo):
     # a case is non-trivial when some write reads the destination tensor (kinds a / b)
@@ -116,7 +206,7 @@ def nontrivial(inp, mo):
 
 def run(tier, seed):
     return flow.standard_run(
-        PID, tier, seed, "Fastor.C18.noalias_snapshot", "FastorModel.Model.ViewAlias", sym_groups, None,
+        PID, tier, seed, "Fastor.C18.noalias_snapshot", "FastorModel.Model.ViewAlias", sym_groups, real_groups,
         assumptions=["vector primitives are lane-wise (property C08)",
                      "index-tensor and boolean-mask views are covered by property C19's machinery, not here; the model records that mask views never test the flag",
                      "ranges have positive steps (seq documents no negative step); FASTOR_NO_ALIAS is not defined"],
